@@ -4,10 +4,12 @@ Decided statically (DESIGN §4 C12): publication order status -> flag in every c
 memory orderings of the flag, poll() shape (register waker / will_wake, waker lock held at the flag load,
 status read only under the flag's true edge), wake after flag, constructor pairing, who may complete.
 """
-from core import (bool_branch, enum_branch, variant_edges, is_call_to, root_calls, field_path, mentions,
+from core import (subst_params, bool_branch, enum_branch, variant_edges, is_call_to, root_calls, field_path, mentions,
                   subexprs, fmt, const_of)
 
 WITNESSES = ['W4DonePrivate']
+from sym import ipaths
+
 LEVEL = "proof"
 EXPLANATION = ("Proof by structural obligations over MIR: the flag store is dominated by the status write and "
                "followed by the waker hand-over; poll registers its waker under the waker lock before loading the "
@@ -140,17 +142,26 @@ def run(ctx):
             ok_val = ok_val and good
         ctx.check(bool(reg) and ok_val, "R12.3", "%s|registers-current-waker" % key,
                   "poll stores Some(clone of the current context's waker) into the waker slot", f.where())
-        already = []
-        for b, t in f.calls_to("std::task::Waker::will_wake"):
-            tb = t.get("target")
-            br = bool_branch(f, tb) if tb is not None else None
-            if br and lock_of_field(f.op_origin(t["args"][0]), WAKER) and mentions(f.op_origin(t["args"][1]), lambda s: is_call_to(s, "std::task::Context::<'a>::waker")):
-                already.append(br[1])
-        through = [b for b, i, rv in reg] + already
-        ctx.check(f.must_pass([0], through, targets=[lbb]), "R12.3", "%s|registration-dominates-flag-load" % key,
-                  "on every path to the flag load the slot holds a waker for the current task (stored, or will_wake is true)",
-                  f.where(lbb))
-        ctx.check(not any(b in f.reach_after(lbb) for b, i, rv in reg), "R12.3", "%s|no-registration-after-load" % key,
+        # on every symbolic path (closures and combinators inlined) the flag load is preceded by a registration into the
+        # slot or by will_wake(slot's waker, current waker) having been true; nothing is registered after the load
+        spaths = ipaths(F, f, stop=lambda n: False, depth=2)
+        bad_before, bad_after, n_load = [], [], 0
+        for p in spaths:
+            lp = [e.seq for e in p.events if e.fn is f and e.bb == lbb]
+            if not lp:
+                continue
+            n_load += 1
+            regs = [w[3] for tgt, val, w in p.stores if lock_of_field(tgt, WAKER) and len(w) > 3]
+            ww = [a for a in p.atoms if a[0] == "bool" and a[2] and is_call_to(a[1], "std::task::Waker::will_wake") and a[4] < lp[0]
+                  and lock_of_field(a[1][2][0], WAKER) and mentions(a[1][2][1], lambda s_: is_call_to(s_, "std::task::Context::<'a>::waker"))]
+            if not ww and not any(r < lp[0] for r in regs):
+                bad_before.append(p)
+            if any(r > lp[0] for r in regs):
+                bad_after.append(p)
+        ctx.check(n_load >= 1 and not bad_before, "R12.3", "%s|registration-dominates-flag-load" % key,
+                  "on every path to the flag load the slot holds a waker for the current task (stored, or will_wake is true) (%d symbolic paths)" % n_load,
+                  f.where(lbb), "; ".join(q.show() for q in bad_before[:2]))
+        ctx.check(not bad_after, "R12.3", "%s|no-registration-after-load" % key,
                   "no waker registration happens after the flag was loaded", f.where(lbb))
         ctx.check("AW" in f.held_before_term(lbb), "R12.3", "%s|waker-lock-held-at-load" % key,
                   "the waker lock is held while the flag is loaded (done() cannot slip between registration and load unobserved)",
@@ -195,22 +206,32 @@ def run(ctx):
                 if rv.get("adt", "").endswith("command::CommandStatus") and rv.get("variant") == "Pending":
                     pending_sites.append((f, b, i))
                 if rv.get("adt") == hname:
-                    n_ctor += 1
                     e = f.origin_rvalue(rv)
                     fields = dict(e[3])
-                    fl = fields.get(FLAG)
-                    flag_val = const_of(fl[2][0]) if is_call_to(fl, "Atomic::<bool>::new") else None
-                    st = [x for x in subexprs(fields.get(STATUS)) if x[0] == "agg" and x[1].endswith("command::CommandStatus")]
-                    is_pending = bool(st) and st[0][2] == "Pending"
-                    ctx.check(flag_val is not None and bool(st) and ((flag_val == 0) == is_pending), "R12.5",
-                              "%s|ctor-pairing" % name, "constructor pairs (flag=false, Pending) or (flag=true, final status)",
-                              f.where(b, i), "flag=%s status=%s" % (flag_val, st[0][2] if st else "?"))
+                    # a constructor taking the flag / status as parameters is judged at each of its call sites
+                    insts = [(f, e[3], f.where(b, i))]
+                    if f.kind != "Closure" and mentions(e, lambda s_: s_[0] == "param"):
+                        insts = []
+                        for g, gb, gt in [(g, gb, gt) for n2, g in F.fns.items() for gb, gt in g.calls() if gt.get("rpath") == name and gt["res"] == "item"]:
+                            args = [g.op_origin(a) for a in gt["args"]]
+                            insts.append((g, subst_params(e, args)[3], g.where(gb)))
+                    for g, fs, where in insts:
+                        n_ctor += 1
+                        fields = dict(fs)
+                        fl = fields.get(FLAG)
+                        flag_val = const_of(fl[2][0]) if is_call_to(fl, "Atomic::<bool>::new") else None
+                        st = [x for x in subexprs(fields.get(STATUS)) if x[0] == "agg" and x[1].endswith("command::CommandStatus")]
+                        is_pending = bool(st) and st[0][2] == "Pending"
+                        ctx.check(flag_val is not None and bool(st) and ((flag_val == 0) == is_pending), "R12.5",
+                                  "%s|ctor-pairing" % g.name, "constructor pairs (flag=false, Pending) or (flag=true, final status)",
+                                  where, "flag=%s status=%s" % (flag_val, st[0][2] if st else "?"))
     ctx.floor("R12.5", "acknowledgement constructors", n_ctor, 3)
     ctor_fns = {f.name for f, b, i in pending_sites}
     ctx.check(len(pending_sites) == 1, "R12.5", "pending-constructed-once",
               "CommandStatus::Pending is constructed at exactly one site (the fresh acknowledgement)",
               detail=str([f.where(b, i) for f, b, i in pending_sites]))
 
+    from ackmodel import worker_root
     # ---- who may complete: done() reachable only from the worker closure ------------------------
     spawn = F.spawn_closures()
     comp_defs = {f.name for f, _, _ in completions}
@@ -238,7 +259,7 @@ def run(ctx):
             if ups:
                 frontier |= ups
                 continue
-        final_callers.add(d)
+        final_callers.add(worker_root(F, d, spawn))
     workers = {d for d in final_callers if d in spawn}
     ctx.check(final_callers and final_callers == workers and len(workers) == 1, "R12.5", "completion-only-from-worker",
               "the completion function is called only from one spawned worker closure (single completer => status written once per acknowledgement, see R11.3)",
